@@ -10,7 +10,7 @@
 //         must_accept                                      =>  success         [completeness]
 //         PS_SUCCESS                                       =>  every authStatus == PS_CERT_AUTH_PASS  [documented contract]
 // The same source builds four targets: C03_KIND unset = mixed generator, 1 = attacker CA with copied signature (F5),
-// 2 = single soft defect (F4), 3 = revocation.
+// 2 = single soft defect (F4), 3 = revocation, 4 = history of validations over one CRL cache (prop_history).
 #include "vf.h"
 #include "mint.h"
 #include "model.h"
@@ -80,8 +80,12 @@ static bool mint_all(Case &cs, std::string &err)
     }
     if (done < total) { err = "copy cycle"; return false; }
     int k = 0;
-    for (auto &r : cs.crls)
+    std::vector<Crl *> all;
+    for (auto &r : cs.crls) all.push_back(&r);
+    for (auto &r : cs.altCrls) all.push_back(&r);
+    for (Crl *rp : all)
     {
+        Crl &r = *rp;
         mint::CrlSpec s;
         s.issuer = r.issuer;
         s.nextUpdate = NOW + r.next;
@@ -111,6 +115,11 @@ static bool selfcheck(const Case &cs, std::string &why)
         int v = mint::verify_crl(r.der, r.signKey);
         if (v < 0 || (v == 1) != !r.sigBad) { why = vf::fmt("crl verify=%d", v); return false; }
     }
+    for (auto &r : cs.altCrls)
+    {
+        int v = mint::verify_crl(r.der, r.signKey);
+        if (v < 0 || (v == 1) != !r.sigBad) { why = vf::fmt("alt crl verify=%d", v); return false; }
+    }
     return true;
 }
 
@@ -139,12 +148,14 @@ struct Mx {
     int32 rc = 0;
     std::vector<int32> status; std::vector<uint32> flags; std::vector<int> order;   // per cert after validation, in list order; order = chain index
     int foundNode = -1;
+    bool ownsStore = true;      // false: anchors and the CRL cache belong to a longer-lived Mx (history mode)
     ~Mx()
     {
         // every cert was parsed on its own: unlink before freeing so nothing is freed twice
         for (auto *c : chain) if (c) { c->next = NULL; }
-        for (auto *c : anchors) if (c) { c->next = NULL; }
         for (auto *c : chain) if (c) free_cert(c);
+        if (!ownsStore) return;
+        for (auto *c : anchors) if (c) { c->next = NULL; }
         for (auto *c : anchors) if (c) free_cert(c);
         psCRL_DeleteAll();
     }
@@ -174,9 +185,9 @@ static const char *rc_name(int32 rc)
     }
 }
 
-static void run_matrixssl(Case &cs, Mx &mx)
+// 1. presented chain: one psX509ParseCert per certificate, linked leaf-first (hsDecode.c parseCertificate)
+static bool parse_chain(const Case &cs, Mx &mx)
 {
-    // 1. presented chain: one psX509ParseCert per certificate, linked leaf-first (hsDecode.c parseCertificate)
     for (size_t i = 0; i < cs.chain.size(); i++)
     {
         const Bytes &der = cs.n[(size_t) cs.chain[i]].der;
@@ -186,11 +197,15 @@ static void run_matrixssl(Case &cs, Mx &mx)
         if (rc < 0)
         {
             mx.chainParsed = false; mx.parseFailPos = (int) i; mx.parseRc = rc; mx.parseStatus = cert ? (int) cert->parseStatus : -1;
-            return;         // the handshake layer aborts here
+            return false;       // the handshake layer aborts here
         }
         if (i > 0) mx.chain[i - 1]->next = cert;
     }
-    // 2. trust anchors: certificates that do not parse cannot be loaded by the application
+    return true;
+}
+// 2. trust anchors: certificates that do not parse cannot be loaded by the application
+static void parse_anchors(const Case &cs, Mx &mx)
+{
     for (int a : cs.anchors)
     {
         const Bytes &der = cs.n[(size_t) a].der;
@@ -201,22 +216,25 @@ static void run_matrixssl(Case &cs, Mx &mx)
         mx.anchors.push_back(cert);
         mx.anchorNode.push_back(a);
     }
-    if (mx.anchors.empty()) return;     // no CA material: the TLS layer never reports success in this situation
-    // 3. CRLs (apps/ssl/client.c fetchParseAndAuthCRLfromUrl): parse, put into the global cache, authenticate against
-    //    the loaded CAs and then against the presented chain
-    for (auto &r : cs.crls)
-    {
-        psX509Crl_t *crl = NULL;
-        if (psX509ParseCRL(NULL, &crl, r.der.data(), (int32) r.der.size()) < 0) { r.mxParsed = false; continue; }
-        r.mxParsed = true;
-        psCRL_Update(crl, 1);
-        psX509Cert_t *ic;
-        for (ic = mx.anchors[0]; ic != NULL; ic = ic->next) if (psX509AuthenticateCRL(ic, crl, NULL) >= 0) break;
-        if (crl->authenticated == 0)
-            for (ic = mx.chain[0]; ic != NULL; ic = ic->next) if (psX509AuthenticateCRL(ic, crl, NULL) >= 0) break;
-        r.mxAuthenticated = crl->authenticated == 1;
-    }
-    // 4. validate
+}
+// 3. a CRL (apps/ssl/client.c fetchParseAndAuthCRLfromUrl): parse, put into the global cache (replacing the CRL of the same
+//    issuer), authenticate against the loaded CAs and then against further certificates the application holds
+static void load_crl(Crl &r, psX509Cert_t *cas, psX509Cert_t *more)
+{
+    psX509Crl_t *crl = NULL;
+    r.mxAuthenticated = false;
+    if (psX509ParseCRL(NULL, &crl, r.der.data(), (int32) r.der.size()) < 0) { r.mxParsed = false; return; }
+    r.mxParsed = true;
+    psCRL_Update(crl, 1);
+    psX509Cert_t *ic;
+    for (ic = cas; ic != NULL; ic = ic->next) if (psX509AuthenticateCRL(ic, crl, NULL) >= 0) break;
+    if (crl->authenticated == 0)
+        for (ic = more; ic != NULL; ic = ic->next) if (psX509AuthenticateCRL(ic, crl, NULL) >= 0) break;
+    r.mxAuthenticated = crl->authenticated == 1;
+}
+// 4. validate
+static void validate(const Case &cs, Mx &mx)
+{
     matrixValidateCertsOptions_t opts;
     memset(&opts, 0, sizeof opts);
     if (cs.revalidateDates) opts.flags |= VCERTS_FLAG_REVALIDATE_DATES;
@@ -236,6 +254,15 @@ static void run_matrixssl(Case &cs, Mx &mx)
     for (size_t i = 0; i < mx.anchors.size(); i++) if (mx.anchors[i] == found) mx.foundNode = mx.anchorNode[i];
 }
 
+static void run_matrixssl(Case &cs, Mx &mx)
+{
+    if (!parse_chain(cs, mx)) return;
+    parse_anchors(cs, mx);
+    if (mx.anchors.empty()) return;     // no CA material: the TLS layer never reports success in this situation
+    for (auto &r : cs.crls) load_crl(r, mx.anchors[0], mx.chain[0]);
+    validate(cs, mx);
+}
+
 static void dump_case(const Case &cs)
 {
     const char *dir = getenv("C03_DUMP");
@@ -249,6 +276,8 @@ static void dump_case(const Case &cs)
 }
 
 // ------------------------------------------------------------------------------------------------ property
+static void judge(Case &cs, Mx &mx, vf::Ctx &c, const std::string &where);
+
 static void prop(vf::Tape &t, vf::Ctx &c)
 {
     mint::reseed(0xC03);
@@ -261,7 +290,12 @@ static void prop(vf::Tape &t, vf::Ctx &c)
 
     Mx mx;
     run_matrixssl(cs, mx);
+    judge(cs, mx, c, "");
+}
 
+// Statistics and the three oracle checks for one validation; `where` prefixes the failure detail in history mode.
+static void judge(Case &cs, Mx &mx, vf::Ctx &c, const std::string &where)
+{
     bool allPass = mx.called && !mx.status.empty();
     int firstBad = -1;
     for (size_t i = 0; i < mx.status.size(); i++) if (mx.status[i] != PS_CERT_AUTH_PASS) { allPass = false; if (firstBad < 0) firstBad = (int) i; }
@@ -272,7 +306,7 @@ static void prop(vf::Tape &t, vf::Ctx &c)
     std::string whyNot;
     bool may = may_accept(cs);
     bool must = must_accept(cs, &whyNot);
-    std::string d = describe(cs);
+    std::string d = where + describe(cs);
     std::string verdict = !mx.chainParsed ? vf::fmt("chain-parse-fail@%d(rc=%d,status=%d)", mx.parseFailPos, mx.parseRc, mx.parseStatus)
                         : !mx.called ? "no-anchor-loaded"
                         : vf::fmt("rc=%d(%s)", mx.rc, rc_name(mx.rc));
@@ -285,7 +319,7 @@ static void prop(vf::Tape &t, vf::Ctx &c)
     if (c.verbose) fprintf(stderr, "[c03] %s\n      => %s | ref may=%d must=%d(%s)\n", d.c_str(), verdict.c_str(), may, must, whyNot.c_str());
 
     // ---- statistics
-    if (g_tbsLeakMasked) { c.count("note:mx-tbs-leak-masked(ed25519-signed,non-ed25519-key)", g_tbsLeakMasked); g_tbsLeakMasked = 0; }
+    if (g_tbsLeakMasked) { c.count("note:tbs-buffer-released-by-harness(ed25519-signed,non-ed25519-key)", g_tbsLeakMasked); g_tbsLeakMasked = 0; }
     c.count("kind:" + cs.kind);
     c.count("shape:" + cs.shape);
     c.count("anchors:" + cs.anchorKind);
@@ -340,7 +374,75 @@ static void prop(vf::Tape &t, vf::Ctx &c)
     }
 }
 
-#if C03_KIND == 1
+// ------------------------------------------------------------------------------------------------ history of validations
+// One trust store and one CRL cache (the library's global one), 2-4 validations.  The application loads and authenticates the
+// CRL once (and may re-load / replace it between validations); after EVERY validation the same oracle applies.  What the
+// application authenticated at load time is what counts: a certificate revoked by such a CRL must never validate, whatever was
+// validated (and failed) before.
+static void prop_history(vf::Tape &t, vf::Ctx &c)
+{
+    mint::reseed(0xC03);
+    Gen g(t);
+    Case cs = g.run(4);
+    std::string err;
+    if (!mint_all(cs, err)) { c.count("discard:mint-failed"); if (c.verbose) fprintf(stderr, "mint failed: %s\n", err.c_str()); throw vf::Discard(); }
+    if (!selfcheck(cs, err)) { c.count("discard:HARNESS-SELFCHECK-MISMATCH"); fprintf(stderr, "[c03] selfcheck mismatch: %s\n", err.c_str()); throw vf::Discard(); }
+
+    Mx store;                                   // owns the anchors and, through its destructor, the CRL cache
+    parse_anchors(cs, store);
+    if (store.anchors.empty()) { c.count("discard:no-anchor-loaded"); throw vf::Discard(); }
+    // certificates of the genuine CAs the application may hold besides its trust store (e.g. kept from an earlier handshake)
+    Mx known; known.ownsStore = false;
+    if (cs.appTriesPathCAs)
+    {
+        for (auto &x : cs.n)
+        {
+            if (x.bc != mint::BC_TRUE || std::string(x.role) == "Impostor") continue;
+            psX509Cert_t *cert = NULL;
+            const Bytes &der = x.der;
+            if (psX509ParseCert(NULL, der.data(), (uint32) der.size(), &cert, 0) < 0) { free_cert(cert); continue; }
+            if (!known.chain.empty()) known.chain.back()->next = cert;
+            known.chain.push_back(cert);
+        }
+    }
+    psX509Cert_t *more = known.chain.empty() ? NULL : known.chain[0];
+    for (auto &r : cs.crls) load_crl(r, store.anchors[0], more);
+    c.count(std::string("hist:initial-crl-") + (!cs.crls[0].mxParsed ? "not-parsed" : cs.crls[0].mxAuthenticated ? "authenticated" : "not-authenticated"));
+
+    std::string seq;
+    for (size_t k = 0; k < cs.steps.size(); k++)
+    {
+        const Case::Step &st = cs.steps[k];
+        if (st.crlAction == 1)
+        {
+            load_crl(cs.crls[0], store.anchors[0], more);        // same CRL fetched again: replaces the cached one
+            c.count("hist:crl-reloaded");
+        }
+        else if (st.crlAction == 2)
+        {
+            Crl a = cs.altCrls[(size_t) st.altIdx % cs.altCrls.size()];
+            load_crl(a, store.anchors[0], more);                // newer CRL of the same issuer replaces the cached one
+            cs.crls[0] = a;
+            c.count("hist:crl-replaced");
+        }
+        cs.chain = st.chain;
+        cs.shape = st.what;
+        cs.revalidateDates = st.revalidateDates;
+        cs.reorderFirst = st.reorderFirst;
+        seq += (k ? ">" : "") + st.what + (st.crlAction == 1 ? "(reload)" : st.crlAction == 2 ? "(replace)" : "");
+        Mx mx; mx.ownsStore = false;
+        mx.anchors = store.anchors; mx.anchorNode = store.anchorNode;
+        if (parse_chain(cs, mx)) validate(cs, mx);
+        c.count("hist:step:" + st.what);
+        judge(cs, mx, c, vf::fmt("history step %zu/%zu [%s] ", k + 1, cs.steps.size(), seq.c_str()));
+    }
+    c.count("hist:steps", cs.steps.size());
+    c.nontrivial("history|" + cs.anchorKind + "|" + std::to_string(cs.mainDepth) + "|" + (cs.defects.empty() ? "" : cs.defects[0].cls) + "|" + seq);
+}
+
+#if C03_KIND == 4
+VF_TARGET("c03_crl_history", prop_history, 768, 60)
+#elif C03_KIND == 1
 VF_TARGET("c03_copied_sig", prop, 768, 60)
 #elif C03_KIND == 2
 VF_TARGET("c03_soft_defect", prop, 768, 60)
